@@ -6,7 +6,8 @@ ASSUME = [
     "connections are reliable FIFO (vnet); exhaustive for <= 2 connections, <= 2 streams, <= 2-3 datagrams per direction",
 ]
 KEYS = {"bytes-wrong", "bytes-missing", "eof-early", "read-blocked", "oversize-datagram-accepted", "call-blocked",
-        "session-died", "dgram-short-consumed", "dgram-merged", "dgram-wrong", "dgram-lost"}
+        "session-died", "dgram-short-consumed", "dgram-merged", "dgram-wrong", "dgram-lost",
+        "dgram-cross-stream", "dgram-duplicate"}
 RULE = ("behaviours of MuxGen with Unordered=TRUE (every arrival order of datagrams over 2-3 connections, oversize writes, closes) "
         "replayed on an unordered Session pair, plus behaviours of DatagramPipeGen (write/read/short-buffer/close orders) replayed "
         "into datagramBufferedPipe; non-trivial = arrival order differs from send order, or a short-buffer read / close occurs")
@@ -35,8 +36,16 @@ def pipe_part(ctx):
     res = lib.run_go(ctx, "multiplex", "TestVerifC14Pipe", env={"VERIF_IN": inp})
     lib.collect_go(ctx, res)
     ctx.log("datagram pipe: %d behaviours replayed, %d violations" % (len(g.behaviours), len(res.get("violations", []))))
-    return {"evaluations": res["evaluations"], "distinct_nontrivial": res["distinct_nontrivial"],
-            "samples": res["samples"][:2], "traces": len(g.behaviours)}
+    # the UDP relay around the session: real client.RouteUDP on loopback sockets, concurrent proxy clients
+    udp = lib.run_go(ctx, "client", "TestVerifC14RouteUDP", timeout=600)
+    lib.collect_go(ctx, udp)
+    if udp["stats"].get("silent_rounds"):
+        raise lib.Inconclusive("RouteUDP rig: no datagram was echoed back (driver problem, not a verdict): %s" % udp.get("notes"))
+    ctx.log("RouteUDP: %d datagrams sent, %d echoed, %d violations" % (udp["stats"].get("datagrams_sent", 0),
+            udp["stats"].get("datagrams_echoed", 0), len(udp.get("violations", []))))
+    return {"evaluations": res["evaluations"] + udp["evaluations"], "distinct_nontrivial": res["distinct_nontrivial"] + udp["distinct_nontrivial"],
+            "samples": res["samples"][:2] + udp["samples"][:1], "traces": len(g.behaviours),
+            "routeudp": {k: v for k, v in udp["stats"].items() if not k.startswith("violations")}}
 
 
 replay = muxprop.replay_file
